@@ -200,14 +200,7 @@ class BADS:
         self._init_random_seed_()
 
         # set up BADS logger
-        self.logger = logging.getLogger("BADS")
-        self.logger.setLevel(logging.INFO)
-        if self.options.get("display") == "off":
-            self.logger.setLevel(logging.WARN)
-        elif self.options.get("display") == "iter":
-            self.logger.setLevel(logging.INFO)
-        elif self.options.get("display") == "full":
-            self.logger.setLevel(logging.DEBUG)
+        self._init_logger_()
 
         # Empty lb and ub are Infs
         if lower_bounds is None:
@@ -1165,6 +1158,20 @@ class BADS:
             hyp_dict,
         )
 
+    def _init_logger_(self):
+        """
+        Set the verbosity of the (process-wide) BADS logger from this
+        instance's ``display`` option.
+        """
+        self.logger = logging.getLogger("BADS")
+        self.logger.setLevel(logging.INFO)
+        if self.options.get("display") == "off":
+            self.logger.setLevel(logging.WARN)
+        elif self.options.get("display") == "iter":
+            self.logger.setLevel(logging.INFO)
+        elif self.options.get("display") == "full":
+            self.logger.setLevel(logging.DEBUG)
+
     def optimize(self):
         """
         Run the optimization on an initialized ``PyBADS`` object.
@@ -1182,6 +1189,9 @@ class BADS:
                     -  ``optimize_result.x``
                     -  ``optimize_result.fval`` 
         """
+        # (the logger is shared by all instances: another instance constructed
+        # in the meantime must not decide how verbose this run is)
+        self._init_logger_()
         is_finished = False
         poll_iteration = -1
         self.logging_action = []
